@@ -1,0 +1,75 @@
+// Copyright 2017 Pilosa Corp.
+//
+// Licensed under the Apache License, Version 2.0 (the "License");
+// you may not use this file except in compliance with the License.
+// You may obtain a copy of the License at
+//
+//     http://www.apache.org/licenses/LICENSE-2.0
+//
+// Unless required by applicable law or agreed to in writing, software
+// distributed under the License is distributed on an "AS IS" BASIS,
+// WITHOUT WARRANTIES OR CONDITIONS OF ANY KIND, either express or implied.
+// See the License for the specific language governing permissions and
+// limitations under the License.
+
+
+//go:build verif
+// +build verif
+
+package roaring
+
+import "io"
+
+// Export shims for the verification harness (/verif, property C04). Add-only, tag-guarded.
+
+// VerifC04Container builds a container with the chosen encoding ('a' array,
+// 'b' bitmap, 'r' run with maximal runs) holding the ascending values.
+func VerifC04Container(typ byte, values []uint16) *Container {
+	switch typ {
+	case 'a':
+		return NewContainerArrayCopy(values)
+	case 'b':
+		bm := make([]uint64, bitmapN)
+		for _, v := range values {
+			bm[v/64] |= 1 << (v % 64)
+		}
+		return NewContainerBitmapN(bm, int32(len(values)))
+	case 'r':
+		var runs []interval16
+		for _, v := range values {
+			if n := len(runs); n > 0 && uint32(runs[n-1].last)+1 == uint32(v) {
+				runs[n-1].last = v
+			} else {
+				runs = append(runs, interval16{start: v, last: v})
+			}
+		}
+		return NewContainerRunCopy(runs)
+	}
+	panic("verif: unknown container encoding")
+}
+
+// VerifC04WriteUnoptimized exposes writeToUnoptimized.
+func VerifC04WriteUnoptimized(b *Bitmap, w io.Writer) (int64, error) {
+	return b.writeToUnoptimized(w)
+}
+
+// VerifC04ContainerInfo is one container of a bitmap: key, type id, N.
+type VerifC04ContainerInfo struct {
+	Key uint64
+	Typ byte
+	N   int32
+}
+
+// VerifC04Info lists the containers of b in key order (nil containers skipped).
+func VerifC04Info(b *Bitmap) []VerifC04ContainerInfo {
+	var out []VerifC04ContainerInfo
+	citer, _ := b.Containers.Iterator(0)
+	for citer.Next() {
+		k, c := citer.Value()
+		out = append(out, VerifC04ContainerInfo{Key: k, Typ: c.typ(), N: c.N()})
+	}
+	return out
+}
+
+// VerifC04Ops returns the op-log counters of b.
+func VerifC04Ops(b *Bitmap) (ops int, opN int) { return b.ops, b.opN }
